@@ -90,6 +90,17 @@ class C01(Prop):
             yield {'kind': 'frontend', 'event': ev_sel, 'event_full': ev, 'options': sel, 'mts': [], 'marginalise': True, 'return_zero': True,
                    'probe': 'none', 'probe_seed': rng.randrange(1 << 30), 'dc': rng.random() < 0.4, 'samples': rng.choice([40, 120]),
                    'parallel': False}
+        # two events inverted one after the other, each with its own file of location-uncertainty samples: the values of the second event must be those of
+        # its own samples (angles and weights), not those of the first event's file
+        for i in range(3 if tier == 'quick' else 20):
+            ev = dg.gen_event(rng, want_pol='pol', want_loc=True)
+            if not ev['types'] or ev['loc'] is None:
+                continue
+            first = dg.gen_event(rng, want_pol='pol', want_loc=True)
+            if not first['types'] or first['loc'] is None:
+                continue
+            yield {'kind': 'frontend', 'event': ev, 'first_event': first, 'options': sorted(ev['types']), 'mts': [], 'marginalise': True, 'return_zero': True,
+                   'probe': 'none', 'probe_seed': rng.randrange(1 << 30), 'dc': False, 'samples': 60, 'parallel': False}
         # the same through the worker pool of the front end (forward tasks built in the workers): manual polarities with mis-pick
         # probabilities, and a second type
         for i in range(2 if tier == 'quick' else 8):
@@ -185,9 +196,23 @@ class C01(Prop):
         try:
             os.chdir(tmp)
             np.random.seed(case['probe_seed'] % (2 ** 32))
+            extra_kw = {}
+            if case.get('first_event'):
+                from MTfit.extensions import scatangle as sc
+                files = []
+                both = []
+                for tag, e_ in (('first', case['first_event']), ('second', case['event'])):
+                    d_, loc_ = dg.to_mtfit(e_, np)
+                    d_['UID'] = 'verif_' + tag
+                    fn_ = os.path.join(tmp, tag + '.scatangle')
+                    sc._output_scatangle(fn_, loc_, e_['weights'] if e_['weights'] is not None else [1.0] * len(loc_))
+                    files.append(fn_)
+                    both.append(d_)
+                data = both
+                extra_kw = {'location_pdf_file_path': files}
             with contextlib.redirect_stdout(sink), contextlib.redirect_stderr(sink):
                 I = inv.Inversion(data, algorithm='iterate', parallel=bool(case.get('parallel')), n=2, max_samples=case['samples'], number_samples=case['samples'] // 2,
-                                  phy_mem=1, convert=False, dc=case['dc'], inversion_options=list(case.get('options', sorted(case['event']['types']))))
+                                  phy_mem=1, convert=False, dc=case['dc'], inversion_options=list(case.get('options', sorted(case['event']['types']))), **extra_kw)
                 I.forward()
                 res, _txt = I.algorithm.output(normalise=False, convert=False)
         finally:
